@@ -53,13 +53,13 @@ type GM struct {
 	ID       int
 	State    string // status text including " (scan)" etc.
 	Minutes  int
-	Locked   bool     `json:",omitempty"`
-	Extra    []string `json:",omitempty"` // further header items, e.g. "synctest bubble 3"
-	Unavail  bool     `json:",omitempty"`
-	Frames   []FrameM `json:",omitempty"`
-	ElideAt  int      // -1: no marker; otherwise the marker is printed before Frames[ElideAt] (== len: after the last)
-	ElideOld bool     `json:",omitempty"` // "...additional frames elided..." (go < 1.21)
-	ElideN   int      `json:",omitempty"`
+	Locked   bool      `json:",omitempty"`
+	Extra    []string  `json:",omitempty"` // further header items, e.g. "synctest bubble 3"
+	Unavail  bool      `json:",omitempty"`
+	Frames   []FrameM  `json:",omitempty"`
+	ElideAt  int       // -1: no marker; otherwise the marker is printed before Frames[ElideAt] (== len: after the last)
+	ElideOld bool      `json:",omitempty"` // "...additional frames elided..." (go < 1.21)
+	ElideN   int       `json:",omitempty"`
 	Creator  *CreatorM `json:",omitempty"`
 }
 
